@@ -91,7 +91,7 @@ func c20bitsD(pat []int, exact []int, align int, place string) Ev {
 		var img func() []byte
 		off := 0
 		switch place {
-		case "buf":
+		case "buf", "cap":
 			raw := make([]byte, n+64)
 			base := 0
 			for (uintptrOf(raw)+uintptr(base))%8 != 0 {
@@ -102,6 +102,9 @@ func c20bitsD(pat []int, exact []int, align int, place string) Ev {
 				raw[i] = 0xAA
 			}
 			win = raw[start : start+n : start+n]
+			if place == "cap" {
+				win = raw[start : start+n] // spare capacity behind the window: still outside "the given slice"
+			}
 			img = func() []byte { return append([]byte(nil), raw...) }
 			off = start
 		case "lo", "hi":
@@ -230,6 +233,7 @@ func runC20(c *Ctx) {
 		}
 		for align := 0; align < 8; align++ {
 			c.NewHist("tlc-bits").Emit(c20bits(in.Pat, align, "buf"))
+			c.NewHist("tlc-bits").Emit(c20bits(in.Pat, align, "cap"))
 		}
 		c.NewHist("tlc-bits-fenced").Emit(c20bits(in.Pat, 0, "lo"))
 		c.NewHist("tlc-bits-fenced").Emit(c20bits(in.Pat, 0, "hi"))
@@ -266,7 +270,7 @@ func runC20(c *Ctx) {
 				put(nw-2-at, other)
 			}
 		}
-		c.NewHist("cancelling-words").Emit(c20bitsD(nil, data, rng.Intn(8), []string{"buf", "buf", "lo", "hi"}[rng.Intn(4)]))
+		c.NewHist("cancelling-words").Emit(c20bitsD(nil, data, rng.Intn(8), []string{"buf", "cap", "lo", "hi"}[rng.Intn(4)]))
 	}
 	// seeded: longer buffers, random patterns; longer strings for Trunc
 	n := c.Pick(1500, 60000)
@@ -279,7 +283,7 @@ func runC20(c *Ctx) {
 			for j := range pat {
 				pat[j] = b2i(rng.Intn(100) < dens)
 			}
-			c.NewHist("random-bits").Emit(c20bits(pat, rng.Intn(8), []string{"buf", "buf", "lo", "hi"}[rng.Intn(4)]))
+			c.NewHist("random-bits").Emit(c20bits(pat, rng.Intn(8), []string{"buf", "cap", "lo", "hi"}[rng.Intn(4)]))
 		} else {
 			units := []string{"a", "b", "é", "€", "😀", "\x80", "\xc3", "\xf0\x9f", "\xff", "ß", "語"}
 			s := ""
